@@ -11,6 +11,7 @@ import os
 from vlib.core import diff_lines, VERIF
 
 STORE_HARNESS = "props/C06/harness/zz_verif_c06_test.go"
+PROTO_HARNESS = "props/C06/harness/zz_verif_c06_proto_test.go"
 
 
 # ------------------------------------------------------------------ (a) store
@@ -147,13 +148,170 @@ def run_store(ctx, binary):
     return ok
 
 
+# ------------------------------------------------------------------ (b) protocol
+def proto_oracle(out):
+    """Statement (b) at a settled point of the implementation (no subscribe/unsubscribe/close/tick in flight):
+    subscribed => the presence contains this connection with its client and user ids; not subscribed => it
+    does not; statistics count exactly the presence set.  None = holds / not applicable."""
+    head, _, tail = out.partition(" | ")
+    kv = dict(w.split("=", 1) for w in (head + " " + tail).split() if "=" in w)
+    if kv.get("settled") != "1":
+        return None
+    if kv.get("chan") == "sub":
+        if kv.get("present") != "1":
+            return "subscribed-not-present"
+        if kv.get("info") != "ok":
+            return "presence-info-wrong"
+    if kv.get("chan") == "none" and kv.get("present") != "0":
+        return "present-not-subscribed"
+    if kv.get("chan") == "res":
+        return "reservation-left-behind"
+    want = "1/1" if kv.get("present") == "1" else "0/0"
+    if kv.get("stats") != want:
+        return "stats-do-not-count-the-presence-set"
+    return None
+
+
+def local_findings():
+    try:
+        return json.load(open(os.path.join(VERIF, "props", "C06", "findings.json"))).get("findings", [])
+    except FileNotFoundError:
+        return []
+
+
+def install_local_known(ctx):
+    """known_findings.json is the union of props/*/findings.json (regenerated by the coordinator); also
+    consult this property's own file so the check behaves the same before and after that merge."""
+    glob_match = ctx._match_known
+
+    def match(signature):
+        hit = glob_match(signature)
+        if hit is not None:
+            return hit
+        for e in local_findings():
+            m = e.get("match") or {}
+            if e.get("property") == ctx.prop and e.get("status") == "known" and m and \
+                    all(signature.get(k) == v for k, v in m.items()):
+                return e
+        return None
+    ctx._match_known = match
+
+
+def run_protocol(ctx, binary, drv):
+    def model(ops):
+        return ctx.run_lines([drv], ops) if ops else []
+
+    def impl(ops):
+        # a schedule that sends a goroutine into a mutex would hang synctest.Wait: bounded, and then a
+        # harness error (the scenarios after it are dropped and counted), never a violation
+        return ctx.go_run(binary, "TestVerifC06Proto", ops, timeout=max(120, len(ops) // 4))
+
+    def pline(quiet, labels):
+        return f"prun quiet={int(quiet)} | " + " ".join(labels)
+
+    if ctx.replay:
+        rp = json.load(open(ctx.replay))
+        if rp.get("part") != "proto":
+            return
+        run_ops = rp.get("ops", [])
+        expected = model(run_ops)
+    else:
+        known_ops = [op for e in local_findings() for op in (e.get("replay") or {}).get("ops", [])]
+        corpus = [l.strip() for l in open(os.path.join(VERIF, "props/C06/corpus_proto.ops"))
+                  if l.strip() and not l.startswith("#")]
+        gens = []
+        for _ in range(ctx.scale(500, 15000)):
+            quiet = ctx.rng.random() < 0.5
+            ln = ctx.rng.choice([4, 8, 12, 18, 26, 40])
+            gens.append(f"pgen quiet={int(quiet)} | " + " ".join(str(ctx.rng.randint(0, 9999)) for _ in range(ln)))
+        gout = model(gens)
+        run_ops = known_ops + corpus
+        expected = model(run_ops)
+        for g, o in zip(gens, gout):
+            if not o.startswith("labels="):
+                ctx.notes.append("driver pgen failed: " + o[:80])
+                continue
+            labs, _, rest = o.partition(" ")
+            run_ops.append(pline("quiet=1" in g.split("|")[0], [l for l in labs[len("labels="):].split(",") if l]))
+            expected.append(rest)
+    out = impl(run_ops)
+    if ctx.last_go_crash:
+        ctx.notes.append("proto harness process: " + str(ctx.last_go_crash)[-400:])
+    harness_errors, seen = 0, {}
+    for i, op in enumerate(run_ops):
+        o = out[i] if i < len(out) else "<missing>"
+        if not o.startswith("chan="):
+            harness_errors += 1
+            ctx.count("proto:harness-error")
+            continue
+        labels = op.partition("|")[2].split()
+        quiet = "quiet=1" in op.partition("|")[0]
+        ctx.record(op, nontrivial=len(set(l[0] for l in labels)) >= 2)
+        ctx.count("proto:quiet" if quiet else "proto:free")
+        for l in labels:
+            ctx.count("proto-label:" + l)
+        msg = proto_oracle(o)
+        ctx.count("proto-oracle:" + (msg or "holds"))
+        if msg is None:
+            continue
+        cls = (msg, quiet, "T" in labels, "C" in labels)
+        seen[cls] = seen.get(cls, 0) + 1
+        if seen[cls] > 1:
+            continue
+        # shrink on the model (every scenario is compared with it), confirm on the implementation
+        cur, budget = list(labels), 60
+        progress = True
+        while progress and budget > 0:
+            progress = False
+            for size in (4, 2, 1):
+                cands = [cur[:k] + cur[k + size:] for k in range(0, max(1, len(cur) - size + 1))]
+                cands = [c for c in cands if c and len(c) < len(cur)]
+                if not cands:
+                    continue
+                budget -= 1
+                mo = model([pline(quiet, c) for c in cands])
+                hit = next((c for c, m in zip(cands, mo) if m.startswith("chan=") and
+                            proto_oracle(m + " | info=ok stats=" + ("1/1" if "present=1" in m else "0/0")) == msg), None)
+                if hit is not None:
+                    cur, progress = hit, True
+                    break
+        sop = pline(quiet, cur)
+        sout = impl([sop])
+        if not sout or proto_oracle(sout[0]) != msg:
+            cur, sop, sout = labels, op, [o]
+        sig = {"part": "proto", "violation": msg, "quiet": quiet, "tick": "T" in cur, "close": "C" in cur}
+        ctx.violation("property", f"protocol: {msg} at a settled point: {sout[0]}", signature=sig,
+                      replay={"part": "proto", "ops": [sop], "impl": sout, "original_op": op})
+    ctx.extra["proto_violation_classes_seen"] = {str(k): v for k, v in seen.items()}
+    ctx.extra["proto_harness_errors_dropped"] = harness_errors
+    ndiff = 0
+    for i, op, a, b in diff_lines(run_ops, [x.partition(" | ")[0] for x in out], expected):
+        if not a.startswith("chan="):
+            continue
+        ndiff += 1
+        if ndiff <= 3:
+            ctx.violation("correspondence", f"protocol: model and implementation differ: impl `{a}` model `{b}`",
+                          signature={"part": "proto", "kind": "diff", "impl": a[:50], "model": b[:50]},
+                          replay={"part": "proto", "ops": [op], "impl": [a], "model": [b]}, no_input=True)
+    ctx.extra["proto_disagreements"] = ndiff
+    ctx.traces_validated += len(run_ops)
+    not_repro = [e["id"] for e in local_findings() if e.get("status") == "known" and e["id"] not in
+                 [k.get("id") for k in ctx.known_hits]]
+    if not_repro and not ctx.replay:
+        ctx.extra["known_findings_not_reproduced"] = not_repro
+
+
 def run(ctx):
     ctx.rule = ("(a) random add/remove/get/stats sequences on 1-3 channels, 1-8 client ids, 1-5 users (same user on "
                 "several clients, re-add, remove of absent client/channel, info.ClientID != key); non-trivial = at "
-                "least two adds; distinct = distinct scenario")
+                "least two adds; distinct = distinct scenario.  (b) schedules are paths of the Lean protocol model chosen "
+                "by the PRNG: subscribe attempt (incl. handler error / late history error), Client.Unsubscribe, close "
+                "and presence tick advanced gate by gate in any interleaving, half of them with the quiet-resubscribe "
+                "assumption; every schedule is run to a settled point where Presence()/PresenceStats() are evaluated")
     ctx.assumptions = ["AddPresence is never called with a nil *ClientInfo (true for every call site in the package)"]
+    install_local_known(ctx)
     proofs_ok = ctx.lean_obligations()
-    binary = ctx.go_test_binary(".", [STORE_HARNESS])
+    binary = ctx.go_test_binary(".", [STORE_HARNESS, PROTO_HARNESS])
     if binary is None:
         ctx.violation("correspondence", "harness no longer builds against package centrifuge",
                       signature={"kind": "harness-build"}, replay={"log": getattr(ctx, "build_error", "")},
@@ -161,5 +319,10 @@ def run(ctx):
         return
     if not run_store(ctx, binary):
         proofs_ok = False
+    drv = ctx.lean_driver_build()
+    if drv is None:
+        proofs_ok = False
+    else:
+        run_protocol(ctx, binary, drv)
     if not proofs_ok:
         ctx.proof_broken()
